@@ -6,6 +6,7 @@
 //     b<n>   response().setbuf(n)            u<0|1> full_asynchronous_buffering
 //     w<n>   write n pattern bytes with ostream::write      p<n>  n pattern bytes with put()
 //     r<hex> write literal bytes             f      flush
+//     P<hex> the literal bytes one by one with ostream::put (sputc -> overflow when the put area is full)
 //     W<n>:<c> write n pattern bytes with ostream::write in pieces of c bytes (many small writes)
 //     z<n>:<seed> write n pseudo-random bytes (LCG x = x*1103515245+12345 mod 2^31 from seed, byte = (x>>16)&255): incompressible
 //     h<hexname>:<hexvalue>  set_header      k<hexname>:<hexvalue> set_cookie
@@ -84,6 +85,7 @@ public:
 				for (size_t i = 0; i < n; i++) { x = (x * 1103515245UL + 12345UL) & 0x7fffffffUL; s += char((x >> 16) & 255); }
 				written_ += s; response().out().write(s.data(), s.size()); } break;
 			case 'r': { std::string s = hx::unhex(arg); written_ += s; response().out().write(s.data(), s.size()); } break;
+			case 'P': { std::string s = hx::unhex(arg); written_ += s; std::ostream &o = response().out(); for (size_t i = 0; i < s.size(); i++) o.put(s[i]); } break;
 			case 'f': response().out() << std::flush; break;
 			case 'h': { size_t c = arg.find(':'); response().set_header(hx::unhex(arg.substr(0, c)), hx::unhex(arg.substr(c + 1))); } break;
 			case 'k': { size_t c = arg.find(':'); response().set_cookie(cppcms::http::cookie(hx::unhex(arg.substr(0, c)), hx::unhex(arg.substr(c + 1)))); } break;
